@@ -16,6 +16,11 @@ P = {
          "WaitGroup release and close of both connections are deferred before the first return and the closer always reaches Close; wg.Add matches the goroutines started; session gauge paired; covert and client connections closed by defers. "
          "This covers every fault position structurally (each exit edge of the loop), which the sampled fault tests cannot; stream equality under all chunkings is not decided.",
          "4/C05"),
+ "C08": (True, "value-flow key agreement, must-pass pairing, finite predicate abstraction (truth table) of the sweep condition, constant tables (go/ssa)",
+         "Decides: the timeout map is keyed by the same function of (phantom, transport identifier) as the registration map at insertion and activation (so each tracked registration has its own record for every history of secrets/transports/families); "
+         "both maps are inserted into / deleted from on the same paths and empty per-phantom maps are removed; the sweep selects a record iff (unused && age>T_unused) || age>T_active, exhaustively over all valuations of its atoms; T_unused=10 min and T_active=6 h with no other writer; activation flips the looked-up record; a ticker loop sweeps. "
+         "These are history-independent structural conditions; set-level behaviour over concrete histories and wall-clock timing are not decided.",
+         "4/C08"),
  "C09": (True, "lockset guarded-by with helper summaries, channel-operation shape rules, lock-order graph, blocking reachability (go/ssa)",
          "Decides for every schedule: the registration maps/flags are only touched under the registration mutex (write lock for writes), the New announcement has a single locked call site dominated by !Valid with Valid=true stored first, "
          "hand-off sends are non-blocking with counted drops and a fixed worker pool, every blocking wait in the pipeline includes the stop signal, lock order is acyclic and nothing blocking runs under the registration lock except the reviewed Redis publish. "
